@@ -11,7 +11,7 @@ STANDING_ASSUMPTIONS = [
 
 PROPERTIES = {
     'C03': {
-        'units': ['utf8', 'escape', 'lex', 'hexread'],
+        'units': ['utf8', 'escape', 'lex', 'hexread', 'tagsjson', 'event_parse', 'filter_parse'],
         'sample_functions': ['next_code_point', 'json_unescape', 'read_u64', 'read_id'],
         'not_decided': [],
     },
